@@ -240,60 +240,7 @@ def _ref_maskinterp1(y, mask, x=None):
     return out
 
 
-class _NumericJob:
-    prop = "C17"
-    level = "B"
-    KINDS = ()
-
-    def _cases(self, rng, n):
-        raise NotImplementedError
-
-    def _check(self, c):
-        raise NotImplementedError
-
-    def run_job(self, tier, seed, exclusions):
-        import random
-        import time
-        import traceback
-        t0 = time.time()
-        res = JobResult(job=self.name, target=self.target, level="B", prop=self.prop, obligations=[], failures=[], crashed=None, bound=self.bound,
-                        paths=0, solver_s=0.0, queries=0, native_runs=0, native_failures=[], vacuity=None,
-                        assumptions=["numerical comparison with an independent reference implementation on generated inputs only"])
-        fails = {}
-        n = 0
-        try:
-            rng = random.Random(seed * 29 + 11)
-            for c in self._cases(rng, self.NQ if tier == "quick" else self.NT):
-                n += 1
-                try:
-                    for kind, msg in self._check(c):
-                        fails.setdefault(kind, []).append((msg, c["inp"]))
-                except Exception as e:
-                    fails.setdefault("no_unexpected_exception", []).append(("%s: %s" % (type(e).__name__, str(e)[:150]), c["inp"]))
-            res["paths"] = res["native_runs"] = n
-            for kd in self.KINDS + ("no_unexpected_exception",):
-                b = fails.get(kd, [])
-                d = dict(name=self.name + ":" + kd, path=0, status="unsat" if not b else "sat", secs=0.0, backend="native-numeric", size=0, note="" if not b else b[0][0])
-                if b:
-                    d.update(inputs=dict(clause=kd, seed=seed, **b[0][1]), model=str(b[:2])[:1000], reason="")
-                res["obligations"].append(d)
-            res["vacuity"] = dict(cases=n)
-        except Exception:
-            res["crashed"] = traceback.format_exc()
-        res["wall_s"] = time.time() - t0
-        return res
-
-    def native_replay(self, inputs):
-        import random
-        rng = random.Random(int(inputs.get("seed", 0)) * 29 + 11)
-        last = None
-        for c in self._cases(rng, int(inputs["rep"]) + 1):
-            last = c
-        try:
-            bad = self._check(last)
-        except Exception as e:
-            bad = [("no_unexpected_exception", "%s: %s" % (type(e).__name__, e))]
-        return (not bad, "case %s: %s" % (last["inp"], bad[:2]))
+from pyvc.numeric import NumericJob as _NumericJob
 
 
 @register("C17")
